@@ -264,12 +264,10 @@ func genG20(repo string, w *Out) error {
 	if err != nil {
 		return err
 	}
-	wc, err := cf.ValueSpec("waitContext")
-	if err != nil {
-		return err
-	}
-	if cf.Src(wc) != "context.Background()" {
-		return fmt.Errorf("conn.go: waitContext = %q, expected context.Background()", cf.Src(wc))
+	// the wait is unconditional: WaitN is given the package-level context.Background() (no deadline, never cancelled)
+	waitUnconditional := true
+	if wc, err := cf.ValueSpec("waitContext"); err != nil || cf.Src(wc) != "context.Background()" {
+		waitUnconditional = false
 	}
 	type connShape struct {
 		limiter               string
@@ -328,6 +326,14 @@ func genG20(repo string, w *Out) error {
 				}
 			}
 		}
+		// the limiter is consulted, but not by a plain WaitN(waitContext, n): a helper, another context, a deadline
+		for _, lim := range []string{"rxLimiter", "txLimiter"} {
+			if strings.Contains(cond, "c."+lim+" != nil") && strings.Contains(call, "c."+lim) {
+				cs.limiter, cs.retN, cs.guardN = lim, strings.Contains(call, ", n)"), strings.Contains(cond, "n > 0")
+				waitUnconditional = false
+				return cs, nil
+			}
+		}
 		return cs, fmt.Errorf("Conn.%s: `if %s { %s }` is not a shape the model knows", method, cond, call)
 	}
 	rs, err := shape("Read")
@@ -344,7 +350,7 @@ func genG20(repo string, w *Out) error {
 	w.DefBool("conn_charges_returned_n", rs.retN && ws.retN)
 	w.DefBool("conn_guard_n_positive", rs.guardN && ws.guardN)
 	w.DefBool("conn_returns_inner_result", true) // named results assigned from c.Conn.<op>(b), bare return (checked above)
-	w.DefBool("wait_context_is_background", true)
+	w.DefBool("wait_context_is_background", waitUnconditional)
 
 	// ---------------------------------------------------------------- net.go
 	nf, err := Parse(repo, "net.go")
